@@ -71,6 +71,7 @@ func ruleMutateRelay(r *Run) {
 		r.Analysed(fn, len(paths))
 		for pi := range paths {
 			path := &paths[pi]
+			r.at(path)
 			sig := r.pathSig(path)
 			type item struct {
 				idx   int
@@ -179,6 +180,7 @@ func ruleSenderExcluded(r *Run) {
 		r.Analysed(fn, len(paths))
 		for pi := range paths {
 			path := &paths[pi]
+			r.at(path)
 			for _, ev := range path.Events {
 				if !r.isRelay(ev) {
 					continue
@@ -468,6 +470,7 @@ func ruleFlagWrap(r *Run) {
 		writes := 0
 		for pi := range paths {
 			path := &paths[pi]
+			r.at(path)
 			r.loopsComplete("C4g", nf, path)
 			for i, ev := range path.Events {
 				if ev.Kind == EvGuard && ev.GKind != GRange {
@@ -502,6 +505,7 @@ func ruleFlagWrap(r *Run) {
 		r.Analysed(def, len(paths))
 		for pi := range paths {
 			path := &paths[pi]
+			r.at(path)
 			calls := 0
 			outcome := ""
 			for i, ev := range path.Events {
@@ -626,6 +630,7 @@ func ruleNotifyGated(r *Run) {
 		r.Analysed(fn, len(paths))
 		for pi := range paths {
 			path := &paths[pi]
+			r.at(path)
 			for i, ev := range path.Events {
 				if !r.isRelay(ev) {
 					continue
@@ -707,6 +712,7 @@ func ruleOwnerGuard(r *Run) {
 		r.Analysed(fn, len(paths))
 		for pi := range paths {
 			path := &paths[pi]
+			r.at(path)
 			for _, me := range r.mutEvents(path) {
 				if !me.Direct {
 					continue
@@ -771,6 +777,7 @@ func ruleCascade(r *Run) {
 		r.Analysed(fn, len(paths))
 		for pi := range paths {
 			path := &paths[pi]
+			r.at(path)
 			for i, ev := range path.Events {
 				f, _ := ev.Callee.(*types.Func)
 				if ev.Kind != EvCall || f == nil || funcName(f) != "models.(*Session).RemoveEntity" {
